@@ -459,7 +459,7 @@ func vmLeg(c *core.Ctx, n int, sz vmSizes) {
 	g := &vmGen{eng: &engGen{allowRTL: true, perPat: 3, maxLen: 10, biasFind: true, biasRewrite: true}}
 	core.RunLeg(c, core.Leg[engCase]{
 		Name: "W", Kind: "correspondence(interpreter model)",
-		Rule: "patterns: 5/6 from the full-syntax engine generator (random ASTs with lookarounds, backreferences, conditionals, balancing groups, atomic groups, greedy/lazy/counted loops, shapes the finders and rewrites look for; 30% literals harvested from the repository's tests; option sets incl. RightToLeft, IgnoreCase, ECMAScript, RE2; code-gen analysis on/off), 1/6 loop towers and random nests of the C13 generator; inputs pattern-directed (≤ 10 runes) or random. For the main and the bool-only program and EVERY start position (\\G bound to it, plus two attempts with \\G elsewhere): VerifAttemptTrace (state at the top of every iteration of executeDefault) vs the Lean model Model/VM.lean run by the driver on the same code array, string table, text and oracle rows (Sets[i].CharIn, unicode.ToLower, word characters of the text's runes): outcome, capture arrays after tidy, final text position, number of iterations, deepest backtracking/grouping stack, the first K trace tuples and a rolling hash of all tuples must be equal; Prog.wf and potOk (Σ weight ≤ 4·TrackCount, hypothesis of vm_track_no_overflow_program) must be true of every program. A difference is re-run with full traces and keyed by the operator of the first diverging iteration. non-trivial = program longer than 8 words and non-empty input; attempts longer than the step cap are skipped (bucket)",
+		Rule:   "patterns: 5/6 from the full-syntax engine generator (random ASTs with lookarounds, backreferences, conditionals, balancing groups, atomic groups, greedy/lazy/counted loops, shapes the finders and rewrites look for; 30% literals harvested from the repository's tests; option sets incl. RightToLeft, IgnoreCase, ECMAScript, RE2; code-gen analysis on/off), 1/6 loop towers and random nests of the C13 generator; inputs pattern-directed (≤ 10 runes) or random. For the main and the bool-only program and EVERY start position (\\G bound to it, plus two attempts with \\G elsewhere): VerifAttemptTrace (state at the top of every iteration of executeDefault) vs the Lean model Model/VM.lean run by the driver on the same code array, string table, text and oracle rows (Sets[i].CharIn, unicode.ToLower, word characters of the text's runes): outcome, capture arrays after tidy, final text position, number of iterations, deepest backtracking/grouping stack, the first K trace tuples and a rolling hash of all tuples must be equal; Prog.wf and potOk (Σ weight ≤ 4·TrackCount, hypothesis of vm_track_no_overflow_program) must be true of every program. A difference is re-run with full traces and keyed by the operator of the first diverging iteration. non-trivial = program longer than 8 words and non-empty input; attempts longer than the step cap are skipped (bucket)",
 		Corpus: vmCorpus, N: n, Gen: g.next, Check: vmCheck(sz), Batch: 100,
 	})
 }
